@@ -5,6 +5,8 @@
 R="${BIOSCRAPE_REPO:-/repo}"
 for d in seeded/*/; do
   id=$(basename "$d"); p="C$(echo "$id" | cut -c2-)"
+  # SWEEP_ROUNDS="C D E": only the rounds named (several sweeps can then run side by side, each on its own snapshot)
+  [ -n "$SWEEP_ROUNDS" ] && { case " $SWEEP_ROUNDS " in *" $(echo "$id" | cut -c1) "*) ;; *) continue;; esac; }
   git -C "$R" apply "$PWD/$d/patch.diff" || { echo "$id patch does not apply"; continue; }
   ./check "$p" quick > "sweep_$id.log" 2>&1; rc=$?
   git -C "$R" checkout -- .
